@@ -480,8 +480,11 @@ def power(a, b):
 
 def compare(a, b, op):
     if _conc(a) and _conc(b):
-        return {"<": lambda: a < b, "<=": lambda: a <= b, ">": lambda: a > b, ">=": lambda: a >= b,
-                "==": lambda: a == b, "!=": lambda: a != b}[op]()
+        try:
+            return {"<": lambda: a < b, "<=": lambda: a <= b, ">": lambda: a > b, ">=": lambda: a >= b,
+                    "==": lambda: a == b, "!=": lambda: a != b}[op]()
+        except TypeError as e:
+            raise PyRaise("TypeError", str(e))       # the program's own TypeError (e.g. None > 1), not a checker error
     if a is None or b is None:
         return {"==": False, "!=": True}.get(op, NotImplemented)
     if _is_inf(a) or _is_inf(b):
